@@ -30,6 +30,14 @@ func drawC05(rt *rapid.T) *Case {
 			c.Docs = append(c.Docs, g.DocFor(p))
 		}
 	}
+	if gen.Uniform(rt, "widedoc", 6) == 0 {
+		// a wide object / long array where the path looks (pooled buffers and tables have to grow)
+		w := g.Wide()
+		if len(p.Steps) > 0 && p.Steps[0].Kind == gen.KName && !p.Steps[0].Rec {
+			w = gen.Obj().Set(p.Steps[0].Key, w)
+		}
+		c.Docs[gen.Uniform(rt, "widewhich", len(c.Docs))] = w
+	}
 	for i := 0; i < 2; i++ {
 		q := g.Path()
 		c.Paths = append(c.Paths, gen.Render(q, gen.Canon).Text)
@@ -47,8 +55,11 @@ func drawC05(rt *rapid.T) *Case {
 			c.Ops = append(c.Ops, Op{Kind: "retrieve", A: gen.Uniform(rt, "other", 2), B: gen.Uniform(rt, "doc", nd)})
 		case k < 34:
 			c.Ops = append(c.Ops, Op{Kind: "parse", A: gen.Uniform(rt, "other", 2)})
-		case k < 39:
+		case k < 37:
 			c.Ops = append(c.Ops, Op{Kind: "scribble", A: int(rapid.Uint32().Draw(rt, "which") % 1000)})
+		case k < 39:
+			// the caller renames a member of a document in place between two calls
+			c.Ops = append(c.Ops, Op{Kind: "rename", A: gen.Uniform(rt, "doc", nd)})
 		default:
 			c.Ops = append(c.Ops, Op{Kind: "gc"})
 		}
@@ -74,8 +85,10 @@ func checkC05(c *Case, st *Stats) string {
 		return fmt.Sprintf("generated path was rejected by Parse: %v", err)
 	}
 	docs := make([]interface{}, len(c.Docs))
+	cur := make([]*gen.DNode, len(c.Docs)) // current content of each document (the caller may edit it in place)
 	for i, d := range c.Docs {
 		docs[i] = d.Build(c.UseNumber)
+		cur[i] = d
 	}
 	// a user function may itself call the parsed function (on another document) while the
 	// outer call is in progress: the outer call must be unaffected
@@ -121,9 +134,9 @@ func checkC05(c *Case, st *Stats) string {
 			calls++
 			fresh, ferr := jsonpath.Retrieve(c.Path, docs[i], BuildConfig(nil, true, false))
 			if !sameOutcome(got, gerr, fresh, ferr) {
-				return fmt.Sprintf("operation %d: call on document %d (%s) returned (%s, %v) but a fresh Retrieve returns (%s, %v); history so far: %s", step, i, c.Docs[i].JSON(), JSONString(got), gerr, JSONString(fresh), ferr, hist)
+				return fmt.Sprintf("operation %d: call on document %d (%s) returned (%s, %v) but a fresh Retrieve returns (%s, %v); history so far: %s", step, i, cur[i].JSON(), JSONString(got), gerr, JSONString(fresh), ferr, hist)
 			}
-			res := spec.Eval(c.AST, c.Docs[i].Build(c.UseNumber), gen.PureFuncs{})
+			res := spec.Eval(c.AST, cur[i].Build(c.UseNumber), gen.PureFuncs{})
 			if !res.Unspecified {
 				if (len(res.Nodes) == 0) != (gerr != nil) || (gerr == nil && !reflect.DeepEqual(got, res.Values())) {
 					return fmt.Sprintf("operation %d: call on document %d returned (%s, %v), SPEC selects %s", step, i, JSONString(got), gerr, JSONString(res.Values()))
@@ -165,6 +178,25 @@ func checkC05(c *Case, st *Stats) string {
 				r.scribbled = true
 				hist += "scribble "
 			}
+		case "rename":
+			i := op.A % len(docs)
+			if nd, path := widestObject(cur[i]); nd != nil {
+				cur[i] = cur[i].Clone()
+				target, _ := widestObject(cur[i])
+				oldKey := target.Keys[0]
+				newKey := fmt.Sprintf("%s~r%d", oldKey, step)
+				target.Keys[0] = newKey
+				if m, ok := liveAt(docs[i], path).(map[string]interface{}); ok {
+					v := m[oldKey]
+					delete(m, oldKey)
+					m[newKey] = v
+					hist += fmt.Sprintf("rename(doc %d: %q->%q) ", i, oldKey, newKey)
+				}
+				// results returned earlier for this document may legitimately alias its containers
+				for _, r := range results {
+					r.scribbled = true
+				}
+			}
 		case "gc":
 			runtime.GC()
 			hist += "gc "
@@ -196,6 +228,33 @@ func checkC05(c *Case, st *Stats) string {
 }
 
 func tierThorough() bool { return envTier() == "thorough" }
+
+// widestObject returns the object node with most members (first in pre-order on ties) and its
+// location.
+func widestObject(d *gen.DNode) (*gen.DNode, []interface{}) {
+	var best *gen.DNode
+	var bestPath []interface{}
+	var walk func(n *gen.DNode, path []interface{})
+	walk = func(n *gen.DNode, path []interface{}) {
+		if n.K == gen.DObj && len(n.Keys) > 0 && (best == nil || len(n.Keys) > len(best.Keys)) {
+			best, bestPath = n, append([]interface{}{}, path...)
+		}
+		for i, k := range n.Kids {
+			if n.K == gen.DObj {
+				walk(k, append(path, n.Keys[i]))
+			} else {
+				walk(k, append(path, i))
+			}
+		}
+	}
+	walk(d, nil)
+	return best, bestPath
+}
+
+func liveAt(doc interface{}, path []interface{}) interface{} {
+	v, _ := getAt(doc, path)
+	return v
+}
 
 func init() {
 	Register("TestC05_History", checkC05)
